@@ -61,7 +61,7 @@ def sha_files(paths):
 
 
 MODULE_DEPS = {
-    "MCBoard.tla": ["Geometry.tla", "Rules.tla", "Text.tla", "MCBoard.tla"],
+    "MCBoard.tla": ["Geometry.tla", "Rules.tla", "RulesImpl.tla", "Text.tla", "MCBoard.tla"],
     "MCGame.tla": ["Geometry.tla", "Rules.tla", "Text.tla", "Game.tla", "MCGame.tla"],
     "MCIter.tla": ["MoveGenIter.tla", "MoveGenImpl.tla", "MCIter.tla"],
     "MCCache.tla": ["CacheTable.tla", "MCCache.tla"],
